@@ -157,7 +157,8 @@ class C18(Check):
         v6tuple = v6 and k.random() < 0.5  # asyncio hands (host, port, flowinfo, scope_id) to datagram_received for IPv6 sockets
         knobs = {"peers": npeers, "uuid_seed": k.getrandbits(32), "shared_addr": k.random() < 0.25,
                  "app_sets_out": k.random() < 0.5, "snmp_patches": k.random() < 0.3,
-                 "cb_kind": k.choice(["function", "function", "bound_method", "bound_method", "partial", "callable_object"])}
+                 "cb_kind": k.choice(["function", "function", "bound_method", "bound_method", "partial", "callable_object"]),
+                 "twin_lag": k.choice([1, 3, 7]) if k.random() < 0.15 else 0}
         rates = {}
         if arm == "faults" and f.random() > 0.1:
             for x in ("dup", "reorder", "drop", "truncate", "garbage", "peer_reset", "peer_rebind", "snmp_fail", "handler_restart", "callback_raises"):
@@ -319,6 +320,8 @@ class C18(Check):
         for kk in ("snmp_patches", "app_sets_out"):
             if case["knobs"].get(kk):
                 yield dict(case, knobs=dict(case["knobs"], **{kk: False}))
+        if case["knobs"].get("twin_lag"):
+            yield dict(case, knobs=dict(case["knobs"], twin_lag=0))
         if case["knobs"].get("cb_kind", "function") != "function":
             yield dict(case, knobs=dict(case["knobs"], cb_kind="function"))
 
@@ -396,6 +399,13 @@ class C18(Check):
 
             c19.run_cotenant(co[: len(co) // 2])
             res.fault("cotenant_library_calls", len(co))
+        twin = None
+        if case["knobs"].get("twin_lag"):
+            st2 = RepeaterStorage()
+            twin = {"lag": case["knobs"]["twin_lag"], "q": [], "p2p": P2PDatagramProtocol(st2, p2p_port=P2P_PORT, rdac_port=RDAC_PORT),
+                    "rdac": RDACDatagramProtocol(st2, callback=lambda u: None)}
+            twin["p2p"].connection_made(SimDatagramTransport("P2P'", lambda o, d, a: None))
+            twin["rdac"].connection_made(SimDatagramTransport("RDAC'", lambda o, d, a: None))
 
         for i, op in enumerate(case["ops"]):
             if co and i == len(case["ops"]) // 2:
@@ -421,6 +431,17 @@ class C18(Check):
                 continue
             A = tuple(op["src"])
             d = bytes.fromhex(op["data"])
+            if twin is not None:
+                # a second, independent installation in the same process (own storage, own handlers, outputs ignored) hears the same peers a
+                # few datagrams late: whatever it knows about a peer differs from what the first installation knows at most moments
+                twin["q"].append((op["dst"], d, A))
+                if len(twin["q"]) > twin["lag"]:
+                    tdst, td, tA = twin["q"].pop(0)
+                    try:
+                        (twin["p2p"] if tdst == "P2P" else twin["rdac"]).datagram_received(td, tA)
+                    except Exception:
+                        pass
+                    res.fault("twin_installation_delivery")
             for x in op.get("f", []):
                 res.fault(x)
             fault = "+".join(op.get("f", [])) or "-"
